@@ -290,6 +290,7 @@ type SensorDevice struct {
 	Requests  [][2]byte
 	failNext  byte
 	failArmed bool
+	failBody  []byte
 }
 
 func (s *SensorDevice) Set(lun, num byte, rsp []byte) {
@@ -305,7 +306,15 @@ func (s *SensorDevice) Set(lun, num byte, rsp []byte) {
 // reading bytes (code 0: a normal completion with an empty body).
 func (s *SensorDevice) FailNext(code byte) {
 	s.mu.Lock()
-	s.failNext, s.failArmed = code, true
+	s.failNext, s.failArmed, s.failBody = code, true, nil
+	s.mu.Unlock()
+}
+
+// FailNextWithBody is FailNext with response data left behind the error completion code
+// (a BMC that does not cut its response short when it fails a command).
+func (s *SensorDevice) FailNextWithBody(code byte, body []byte) {
+	s.mu.Lock()
+	s.failNext, s.failArmed, s.failBody = code, true, body
 	s.mu.Unlock()
 }
 
@@ -317,7 +326,7 @@ func (s *SensorDevice) Handle(ev *Event) (byte, []byte, bool) {
 	defer s.mu.Unlock()
 	if s.failArmed {
 		s.failArmed = false
-		return s.failNext, nil, true
+		return s.failNext, s.failBody, true
 	}
 	if len(ev.Data) != 1 {
 		return 0xc7, nil, true
